@@ -1,3 +1,5 @@
+//go:build !no_chunk
+
 package main
 
 import (
